@@ -104,7 +104,7 @@ def run(ctx):
     ctx.build(["c06"])
     mc(ctx)
     q = ctx.quick
-    per_arch = 100 if q else 2700
+    per_arch = 100 if q else 2000
     parts = 2 if q else 8
     jobs = []
     for a in ARCHS:
